@@ -282,7 +282,8 @@ fn probes(cx: &mut Ctx, s: &Schema) {
 /// Values are multiples of 1/4 so that every partial sum is exact in f64.
 fn float_stream(cx: &mut Ctx, rng: &mut Rng, tables: u64) {
     for _ in 0..tables {
-        let n = gen_size(rng, *rng.pick(&[0u32, 1, 2, 2, 3, 4]), 1100);
+        let class = *rng.pick(&[0u32, 1, 2, 2, 3, 4]);
+        let n = gen_size(rng, class, 1100);
         let mut db = Db::new();
         db.keep_log = true;
         db.must("CREATE TABLE f (k INTEGER, d DOUBLE PRECISION)");
@@ -360,7 +361,8 @@ fn main() {
             for qi in 0..per_table {
                 // 2/3 gate-accepted shapes, 1/3 with HAVING/ORDER BY/LIMIT/OFFSET or DISTINCT
                 let tail = qi % 3 == 2;
-                let q = gen_stmt(&mut r, &s, tail, tail && r.chance(1, 2));
+                let dist = tail && r.chance(1, 2);
+                let q = gen_stmt(&mut r, &s, tail, dist);
                 if ti < 3 && qi == 0 {
                     cx.rep.sample(json!({"table_rows": t.rows.len(), "sql": q.sql(&s), "model_request": format!("query {} <rows>", q.sx_head())}));
                 }
